@@ -134,6 +134,10 @@ func adam(f func(ConstVector) (MagicScalar, error), x0 ConstVector, step_size, b
     }
     beta1_t *= beta1
     beta2_t *= beta2
+    // do not accept (and possibly return) a point that violates the constraints
+    if (constraints.Value != nil && !constraints.Value(x2)) {
+      return x1, fmt.Errorf("Constraints voilated")
+    }
     x1.Set(x2)
   }
   return x1, nil
